@@ -209,13 +209,21 @@ def agree(mode, pi, pm):
     return out
 
 
+MAX_CRASHES = 24
+
+
 # ------------------------------------------------------------------------------------------------
 def run_lines(binpath, drv, lines):
     """feed the same lines to the harness (in batches, in parallel) and to the driver"""
     text = "".join(l + "\n" for l in lines)
     batches = [lines[i:i + BATCH] for i in range(0, len(lines), BATCH)]
 
+    crashes = [0]
+
     def one(b):
+        if crashes[0] >= MAX_CRASHES:
+            # enough crashing queries have been isolated (each costs a process): the rest of this run is not evaluated
+            return ["SKIPPED-after-%d-crashes" % MAX_CRASHES] * len(b)
         rc, out, err = common.sh2([binpath], stdin="".join(l + "\n" for l in b), timeout=300)
         o = out.split("\n")[:-1] if out.endswith("\n") else out.split("\n")
         if rc == 5:
@@ -223,6 +231,7 @@ def run_lines(binpath, drv, lines):
         if rc != 0 or len(o) != len(b):
             if len(b) == 1:
                 # the process running the REAL impls died on this query (double free, abort, ...): an observation
+                crashes[0] += 1
                 return ["CRASH status=%s stderr=%s" % (rc, " ".join(err.strip().split())[-200:].replace("(", "[").replace(")", "]"))]
             # isolate the queries that kill the process
             return [x for q in b for x in one([q])]
@@ -239,6 +248,8 @@ def run_lines(binpath, drv, lines):
 def evaluate(lines, impl, model):
     res = []
     for q, i, m in zip(lines, impl, model):
+        if i.startswith("SKIPPED-after-"):
+            continue
         mode = q.split(" ", 1)[0]
         pi, pm = parse(i), parse(m)
         if i.startswith("CRASH") and pm is not None:
